@@ -13,8 +13,9 @@ EXTENDS Naturals, Sequences, FiniteSets
 
 VARIABLES
     cfg,          \* [chroot, uid, gid, tls : BOOLEAN]  which options are configured
-    euid,         \* "root" | "user"      effective = real uid (setreuid(u,u) sets both)
-    egid,         \* "root" | "group"
+    euid,         \* "root" | "user" | "other"   effective = real uid (setreuid(u,u) sets both); "user" is the
+                  \*                              configured account, "other" an unprivileged account that started us
+    egid,         \* "root" | "group" | "other"
     groups,       \* "inherited" | "cleared"   supplementary groups
     rootdir,      \* "host" | "docroot"   what "/" means for the process
     cwd,          \* "elsewhere" | "docroot"   host directory the process stands in
@@ -31,10 +32,14 @@ Drops == {"chroot", "setgroups", "setgid", "setuid"}
 
 Configs == [chroot : BOOLEAN, uid : BOOLEAN, gid : BOOLEAN, tls : BOOLEAN]
 
-InitWith(c) ==
-    /\ cfg = c /\ euid = "root" /\ egid = "root" /\ groups = "inherited"
+Starters == {"root", "other"}        \* who runs the daemon: root, or an ordinary account
+
+InitWithAs(c, u) ==
+    /\ cfg = c /\ euid = u /\ egid = u /\ groups = "inherited"
     /\ rootdir = "host" /\ cwd = "elsewhere" /\ bound = FALSE /\ tlsLoaded = FALSE
     /\ cfgRoot = "docroot" /\ phase = "starting" /\ failed = FALSE /\ dropped = {}
+
+InitWith(c) == InitWithAs(c, "root")
 
 --------------------------------------------------------------------------------
 (* OS permission model: would the kernel let this call succeed in the current state?      *)
@@ -42,7 +47,7 @@ OsPermits(call) ==
     CASE call = "chroot"    -> euid = "root"
       [] call = "setgroups" -> euid = "root"
       [] call = "setgid"    -> euid = "root"
-      [] call = "setuid"    -> TRUE            \* to itself or, as root, to anybody
+      [] call = "setuid"    -> euid \in {"root", "user"}   \* as root to anybody, otherwise only to itself
       [] OTHER              -> TRUE
 
 (* A failing call raises; nothing in initialize() catches it; start-up is over.            *)
@@ -54,6 +59,15 @@ LoadTLS(ok) ==
     /\ IF ok THEN /\ tlsLoaded' = TRUE
                   /\ UNCHANGED <<cfg, euid, egid, groups, rootdir, cwd, bound, cfgRoot, phase, failed, dropped>>
              ELSE Fail
+
+\* pwd.getpwnam / grp.getgrnam of the configured account: an unknown name raises KeyError
+LookupUser(ok) ==
+    /\ phase = "starting"
+    /\ IF ok THEN UNCHANGED vars ELSE Fail
+
+LookupGroup(ok) ==
+    /\ phase = "starting"
+    /\ IF ok THEN UNCHANGED vars ELSE Fail
 
 Bind(ok) ==
     /\ phase = "starting"
@@ -124,6 +138,7 @@ Abort ==
 \* (the implementation-shaped program; design level, not part of the property)
 Prog(c) ==
     (IF c.tls THEN <<"loadtls">> ELSE <<>>) \o <<"bind">> \o
+    (IF c.uid THEN <<"lookupuser">> ELSE <<>>) \o (IF c.gid THEN <<"lookupgroup">> ELSE <<>>) \o
     (IF c.chroot THEN <<"chroot", "chdir", "cfgroot">> ELSE <<>>) \o
     (IF c.uid \/ c.gid THEN <<"setgroups">> ELSE <<>>) \o
     (IF c.gid THEN <<"setgid">> ELSE <<>>) \o
